@@ -47,6 +47,35 @@ var stdTable = map[string]stdEntry{
 	"(time.Time).After":       fresh,
 	"(time.Time).Before":      fresh,
 	"bytes.NewReader":         {ResFresh: true, Note: "fresh reader; a bytes.Reader never writes the slice it reads"},
+	"fmt.Errorf":              fresh,
+	"errors.New":              fresh,
+	"strings.TrimLeft":        fresh,
+	"strings.TrimSuffix":      fresh,
+	"strings.TrimPrefix":      fresh,
+	"strings.TrimSpace":       fresh,
+	"strings.Trim":            fresh,
+	"strings.Split":           fresh,
+	"strings.Contains":        fresh,
+	"strings.Index":           fresh,
+	"strings.ToLower":         fresh,
+	"strings.ToUpper":         fresh,
+	"strings.Compare":         fresh,
+	"strings.EqualFold":       fresh,
+	"strconv.Itoa":            fresh,
+	"strconv.Quote":           fresh,
+	"strconv.Atoi":            fresh,
+	"slices.IndexFunc":        fresh,
+	"slices.ContainsFunc":     fresh,
+	"slices.Equal":            fresh,
+	"slices.BinarySearch":     fresh,
+	"slices.BinarySearchFunc": fresh,
+	"slices.Max":              fresh,
+	"slices.Min":              fresh,
+	"math/bits.Len":           fresh,
+	"math/bits.Len64":         fresh,
+	"math/bits.LeadingZeros":  fresh,
+	"math/bits.TrailingZeros": fresh,
+	"encoding/json.Valid":     fresh,
 
 	// I/O
 	"fmt.Println": {IO: true},
@@ -59,6 +88,16 @@ var stdTable = map[string]stdEntry{
 	"bytes.NewBuffer": {ResFresh: true, ResHolds: []int{0}, Note: "fresh buffer that takes ownership of argument 0"},
 
 	// in-place mutators
+	"slices.Reverse":          {WritesDeep: []int{0}},
+	"sort.Slice":              {WritesDeep: []int{0}},
+	"sort.Ints":               {WritesDeep: []int{0}},
+	"sort.Strings":            {WritesDeep: []int{0}},
+	"slices.Grow":             {ResFresh: true, ResAlias: []int{0}, Note: "returns its argument when the capacity suffices"},
+	// formatted output into a writer the caller supplies: writes that writer (os.Stdout / os.Stderr as
+	// the writer is recorded as I/O by the reference to the global itself)
+	"fmt.Fprintf":             {WritesDeep: []int{0}},
+	"fmt.Fprint":              {WritesDeep: []int{0}},
+	"fmt.Fprintln":            {WritesDeep: []int{0}},
 	"slices.Sort":             {WritesDeep: []int{0}},
 	"slices.SortFunc":         {WritesDeep: []int{0}},
 	"slices.Insert":           {Writes: []int{0}, ResFresh: true, ResAlias: []int{0}, ResHoldsElems: []int{2}, Note: "grows in place or reallocates, like append"},
@@ -73,7 +112,7 @@ var stdTable = map[string]stdEntry{
 	// plus every method of *bytes.Buffer (prefix rule): writes the receiver, result may alias it
 }
 
-var bufferMethod = stdEntry{Writes: []int{0}, ResAlias: []int{0}, Note: "any method of *bytes.Buffer: writes the receiver; a reference result aliases the receiver"}
+var bufferMethod = stdEntry{Writes: []int{0}, ResAlias: []int{0}, Note: "any method of *bytes.Buffer / *strings.Builder: writes the receiver; a reference result aliases the receiver"}
 var logEntry = stdEntry{IO: true, Note: "every function of package log and every method of *log.Logger"}
 
 func lookupStd(name string) (stdEntry, bool) {
@@ -81,7 +120,7 @@ func lookupStd(name string) (stdEntry, bool) {
 		return e, true
 	}
 	switch {
-	case strings.HasPrefix(name, "(*bytes.Buffer)."):
+	case strings.HasPrefix(name, "(*bytes.Buffer)."), strings.HasPrefix(name, "(*strings.Builder)."):
 		return bufferMethod, true
 	case strings.HasPrefix(name, "log.") || strings.HasPrefix(name, "(*log.Logger)."):
 		return logEntry, true
